@@ -212,3 +212,67 @@ class G:
                 b.state[members, :] = MIS
             else:
                 b.state[members, s] = MIS
+
+
+# ---------------------------------------------------------------------------- transforms
+
+
+def gen_insertions(g, valid_ids, missing_ids, n=None, allow_diff=True, allow_stale=True,
+                   with_ids=None, disjoint=False, anchors=None, hide_some=True):
+    """Random insertion dicts for a categorical dimension.
+
+    Addend / subtrahend sets are arbitrary subsets of the valid ids, salted with missing and
+    stale ids; anchors are drawn from top/bottom/TOP/None/ids (int or str)/stale/missing ids.
+    """
+    r = g.r
+    n = r.choice([1, 1, 2, 2, 3, 4]) if n is None else n
+    with_ids = r.choice(["all", "none", "mixed"]) if with_ids is None else with_ids
+    stale = [x for x in (97, 98, 99) if x not in valid_ids and x not in missing_ids]
+    out = []
+    used_ids = r.sample(range(1, 30), n)
+    for k in range(n):
+        pool = list(valid_ids)
+        r.shuffle(pool)
+        na = r.randint(1, max(1, min(3, len(pool))))
+        pos = pool[:na]
+        neg = []
+        if allow_diff and r.random() < 0.35:
+            rest = pool[na:] if disjoint else pool
+            nn = r.randint(1, max(1, min(2, len(rest)))) if rest else 0
+            neg = r.sample(rest, nn) if rest else []
+        if allow_stale and r.random() < 0.3:
+            pos = pos + [r.choice(stale + list(missing_ids))] if (stale or missing_ids) else pos
+        if allow_stale and neg and r.random() < 0.2 and stale:
+            neg = neg + [r.choice(stale)]
+        if anchors is None:
+            achoices = ["top", "bottom", "TOP", "Bottom", None]
+            achoices += list(valid_ids) + [str(x) for x in valid_ids]
+            achoices += stale[:1] + list(missing_ids)[:1]
+            anchor = r.choice(achoices)
+        else:
+            anchor = r.choice(anchors)
+        ins = {"function": "subtotal", "name": "ins_%d" % (k + 1), "anchor": anchor}
+        if neg or r.random() < 0.4:
+            ins["kwargs"] = {"positive": pos}
+            if neg:
+                ins["kwargs"]["negative"] = neg
+            if r.random() < 0.3:
+                ins["args"] = pos
+        else:
+            ins["args"] = pos
+        if with_ids == "all" or (with_ids == "mixed" and r.random() < 0.5):
+            ins["id"] = used_ids[k]
+        if hide_some and r.random() < 0.08:
+            ins["hide"] = True
+        if r.random() < 0.1:
+            ins["fill"] = "#%06x" % r.randrange(0, 0xFFFFFF)
+        out.append(ins)
+    # a few junk entries the library must skip
+    if r.random() < 0.15:
+        out.insert(r.randrange(len(out) + 1), {"function": "heading", "name": "H", "anchor": "top"})
+    if r.random() < 0.05:
+        out.insert(r.randrange(len(out) + 1), "not-a-dict")
+    if r.random() < 0.08 and stale:
+        out.insert(r.randrange(len(out) + 1), {"function": "subtotal", "name": "stale-only",
+                                               "anchor": "bottom", "args": [stale[0]]})
+    return out
